@@ -5,7 +5,7 @@ ROOT = os.path.dirname(os.path.dirname(os.path.dirname(os.path.abspath(__file__)
 REPO = os.environ.get("VERIF_REPO", "/repo")
 BUILD = os.path.join(ROOT, "_build")
 COQ = os.path.join(ROOT, "coq")
-NCPU = min(16, os.cpu_count() or 4)
+NCPU = int(os.environ.get("VERIF_NCPU", "0")) or min(16, os.cpu_count() or 4)
 ASAN_LIB = None
 
 def log(*a):
@@ -167,8 +167,15 @@ def ensure_coq(targets=None, clean=False):
             return False, "translator failed:\n" + out
         if clean:
             sh("make -f Makefile clean >/dev/null 2>&1; rm -f Makefile Makefile.conf .Makefile.d", cwd=COQ)
+        # _CoqProject is generated: every .v under Spec/ Gen/ Model/ Proofs/ Properties/ (Extract/ is compiled by ensure_oracle)
+        files = sorted(os.path.relpath(p, COQ) for d in ("Spec", "Gen", "Model", "Proofs", "Properties")
+                       for p in glob.glob(os.path.join(COQ, d, "**", "*.v"), recursive=True))
+        proj = "-Q . LZ4V\n" + "\n".join(files) + "\n"
+        pj = os.path.join(COQ, "_CoqProject")
+        if not os.path.exists(pj) or open(pj).read() != proj:
+            open(pj, "w").write(proj)
         if not os.path.exists(os.path.join(COQ, "Makefile")) or \
-           os.path.getmtime(os.path.join(COQ, "Makefile")) < os.path.getmtime(os.path.join(COQ, "_CoqProject")):
+           os.path.getmtime(os.path.join(COQ, "Makefile")) < os.path.getmtime(pj):
             sh("coq_makefile -f _CoqProject -o Makefile", cwd=COQ, check=True)
         tg = " ".join(targets) if targets else ""
         rc, out = sh("timeout 3000 make -k -j%d %s 2>&1" % (NCPU, tg), cwd=COQ)
